@@ -13,8 +13,8 @@ TRUSTED = [
     'tied to /repo on every run: the pending set (objects_to_save with status and foreign-key columns, modified many-to-many pairs) is read from the real '
     'session right before each commit, the committed rows through a separate sqlite3 connection, and the statements of the real flush (sqlite3 trace '
     'callback) must be the model\'s statement list (object statements in exactly the same order, link rows as bags in their phase), with the same '
-    'outcome (accepted / UnresolvableCyclicDependency); the pending set must satisfy the theorem\'s hypothesis wf_pending (evaluated by vm_compute)',
-    'SQLite enforces Pony\'s foreign keys immediately (the harness runs with PRAGMA foreign_keys=ON as Pony sets it); the model ignores ON DELETE actions (conservative)',
+    'outcome (accepted / UnresolvableCyclicDependency); the pending set must satisfy the theorem\'s hypothesis wf_pending (evaluated by vm_compute); the ON DELETE SET NULL action of a column is read from the real mapping and is part of the model\'s column id',
+    'SQLite enforces Pony\'s foreign keys immediately (the harness runs with PRAGMA foreign_keys=ON as Pony sets it); the model applies SET NULL actions and treats CASCADE as NO ACTION (conservative)',
     'the harness tools/c16_impl.py and the history generator tools/c13_gen.py',
 ]
 ASSUMPTIONS = [
@@ -231,11 +231,13 @@ def replay(ctx, data):
 
 LEVEL_TEXT = ('Machine-checked proof (Coq 8.16.1) over a model of flush: for every well-formed pending set whose references between new objects can be ranked, every emitted '
               'INSERT / UPDATE / DELETE / link-row statement passes the immediate foreign-key check and the commit succeeds (induction on the _save_principal_objects_ '
-              'recursion; the fuel is discharged by the rank); with a reference cycle between new objects flush cannot succeed and the commit leaves the database '
+              'recursion; the fuel is discharged by the rank; a database that applies the declared ON DELETE SET NULL actions; queues with a repeated object included); flush never runs out of fuel; with a reference cycle between new objects flush reports the cycle error and the commit leaves the database '
               'unchanged. The model is compared with real Pony + SQLite on every run: pending sets are read from real sessions, the traced statements must be the '
               'model\'s statement list in the same order, outcomes must agree, and the theorem\'s hypothesis is evaluated on every real pending set.')
-LEVEL_NOTE = ('C16_cycle shows "no success and nothing committed"; that the reported error is the cycle error rather than the model\'s fuel exhaustion is checked by the '
-              'correspondence run only. ON DELETE actions are not relied upon (DELETE is accepted only when no other row references the row). "Can be ordered" counts '
-              'optional references too: Pony raises UnresolvableCyclicDependency for a cycle that could be broken by inserting NULL first (noted, not a finding).')
+LEVEL_NOTE = ('C16_no_fuel: flush never runs out of fuel, so C16_cycle yields the cycle error itself. The database model applies ON DELETE SET NULL as generate_mapping declares it '
+              '(column ids carry the action); ON DELETE CASCADE is treated as NO ACTION (conservative): commits that are acceptable only through a CASCADE action - an object queued '
+              'twice is deleted at its first slot, before its cascaded dependents - are outside wf_pending, are only required to succeed on the real database and are counted. '
+              'Queues that hold the same object twice are covered by C16_order (coherent_ids instead of distinct ids). "Can be ordered" counts optional references too: Pony raises '
+              'UnresolvableCyclicDependency for a cycle that could be broken by inserting NULL first (noted, not a finding).')
 TECHNIQUE = 'Coq proof by induction on the principal-saving recursion with a queue/database invariant + vm_compute correspondence of statement traces (sqlite3 trace callback) + property-oracle search'
 DESIGN_REF = 'DESIGN.md section 5, C16; Appendix A'
